@@ -314,41 +314,36 @@ Proof. intros c. unfold mc_terms, terms_of, coeffs_opt. destruct (mc_coeffs c); 
 Record wfc (c : mconstr) : Prop := {
   wfc_nz : Forall (fun l => l <> 0) (mc_lits c);
   wfc_len : mc_coeffs c = [] \/ length (mc_coeffs c) = length (mc_lits c);
-  wfc_cnz : Forall (fun w => w <> 0) (mc_coeffs c);
-  wfc_w : 0 <= mc_weight c;
-  wfc_pos : mc_hard c = false -> Forall (fun w => 0 < w) (mc_coeffs c);
-  wfc_al : mc_hard c = false -> mc_coeffs c <> [] -> mc_atleast c <> 0
+  wfc_w : 0 <= mc_weight c
 }.
 
 Lemma wf_constr_wfc : forall c, wf_constr c = true -> wfc c.
 Proof.
-  intros c H. unfold wf_constr in H. repeat (apply andb_true_iff in H; destruct H as [H ?]).
-  rename H into H1, H3 into H2, H2 into H3, H1 into H4, H0 into H5.
-  constructor.
+  intros c H. unfold wf_constr in H. apply andb_true_iff in H. destruct H as [H H3].
+  apply andb_true_iff in H. destruct H as [H1 H2]. constructor.
   - apply Forall_forall. intros l Hl. rewrite forallb_forall in H1. specialize (H1 l Hl).
     apply negb_true_iff, Z.eqb_neq in H1. exact H1.
   - destruct (mc_coeffs c) as [|w cs]; [left; reflexivity|right]. apply Nat.eqb_eq. exact H2.
-  - apply Forall_forall. intros w Hw. rewrite forallb_forall in H3. specialize (H3 w Hw).
-    apply negb_true_iff, Z.eqb_neq in H3. exact H3.
-  - apply Z.leb_le. exact H4.
-  - intros Hh. rewrite Hh in H5. cbn [orb] in H5. apply andb_true_iff in H5. destruct H5 as [H5 _].
-    apply Forall_forall. intros w Hw. rewrite forallb_forall in H5. specialize (H5 w Hw).
-    apply Z.ltb_lt. exact H5.
-  - intros Hh Hne. rewrite Hh in H5. cbn [orb] in H5. apply andb_true_iff in H5. destruct H5 as [_ H5].
-    destruct (mc_coeffs c); [congruence|]. apply negb_true_iff, Z.eqb_neq in H5. exact H5.
+  - apply Z.leb_le. exact H3.
 Qed.
 
-Lemma wfc_user_nonneg : forall c mu, wfc c -> mc_hard c = false -> 0 <= lhs mu (mc_terms c).
+(* what GtEq returns: positive weights, non-zero literals *)
+Lemma gteq_terms_out : forall ts n, Forall (fun t : term => snd t <> 0) ts ->
+  Forall (fun t : term => 0 < fst t /\ snd t <> 0) (fst (gteq_terms ts n)).
 Proof.
-  intros c mu W Hh. unfold mc_terms. destruct (mc_coeffs c) as [|w cs] eqn:E.
-  - apply lhs_unit_nonneg.
-  - apply lhs_nonneg. pose proof (wfc_pos c W Hh) as Hp. rewrite E in Hp.
-    apply nonneg_terms_Forall. revert Hp. generalize (w :: cs). intros l Hp.
-    revert l Hp. induction (mc_lits c) as [|x ls IH]; intros l Hp.
-    + destruct l; constructor.
-    + destruct l as [|y l]; [constructor|]. inversion Hp; subst. cbn [combine].
-      constructor; [cbn [fst]; lia|apply IH; assumption].
+  induction ts as [|[w l] r IH]; intros n H; cbn [gteq_terms]; [constructor|].
+  inversion H as [|? ? Hl Hr]; subst. cbn [snd] in Hl.
+  destruct (w <? 0) eqn:E1.
+  - apply Z.ltb_lt in E1. specialize (IH (n + - w) Hr).
+    destruct (gteq_terms r (n + - w)) as [r' n']. cbn [fst] in *.
+    constructor; [cbn [fst snd]; lia|exact IH].
+  - apply Z.ltb_ge in E1. destruct (w =? 0) eqn:E2; [apply IH; exact Hr|].
+    apply Z.eqb_neq in E2. specialize (IH n Hr). destruct (gteq_terms r n) as [r' n'].
+    cbn [fst] in *. constructor; [cbn [fst snd]; lia|exact IH].
 Qed.
+
+Lemma combine_fst_snd : forall ts : list term, combine (map fst ts) (map snd ts) = ts.
+Proof. induction ts as [|[w l] ts IH]; cbn; [reflexivity|]. f_equal. exact IH. Qed.
 
 (* ------------------------------------------------------------------ *)
 (* One constraint.                                                     *)
@@ -359,9 +354,10 @@ Proof.
   intros vi c vi1 p ot H. unfold enc_constr in H.
   destruct (tr_lits vi (mc_lits c)) as [va lits] eqn:E.
   apply tr_lits_spec in E. destruct E as [[e ->] _].
-  destruct (mc_weight c =? 0); injection H as <- _ _.
-  - eauto.
-  - exists (e ++ [None]). rewrite app_assoc. reflexivity.
+  destruct (mc_weight c =? 0).
+  - injection H as <- _ _. eauto.
+  - destruct (gteq_c lits _ (mc_atleast c)) as [[l1 c1] a1]. injection H as <- _ _.
+    exists (e ++ [None]). rewrite app_assoc. reflexivity.
 Qed.
 
 Lemma enc_constr_sem : forall vi c vi1 p ot, enc_constr vi c = (vi1, p, ot) -> wfc c ->
@@ -385,22 +381,22 @@ Proof.
     rewrite gteq_sem by exact Hnz'. f_equal. unfold terms_of. destruct (coeffs_opt c) as [cs|].
     + eapply lhs_combine_tr; eauto.
     + eapply lhs_unit_tr; eauto.
-  - injection H as <- <- <-.
-    assert (Hh : mc_hard c = false) by exact Eh.
+  - destruct (gteq_c lits (coeffs_opt c) (mc_atleast c)) as [[l1 c1] a1] eqn:Eg.
+    injection H as <- <- <-.
     set (b := Z.of_nat (length ((vi ++ e) ++ [None]))).
     assert (Hb : 0 < b) by (unfold b; rewrite app_length; simpl; lia).
     split; [reflexivity|]. split; [exact Hb|].
     assert (A' : agrees (vi ++ e) m mu) by (eapply agrees_prefix; exact A).
-    assert (Hnz2 : Forall (fun l => l <> 0) (lits ++ [b])).
-    { apply Forall_app. split; [exact Hnz'|]. constructor; [lia|constructor]. }
-    rewrite gteq_sem by exact Hnz2.
-    pose proof (wfc_user_nonneg c mu W Hh) as Hpos. rewrite mc_terms_of in Hpos.
     pose proof (lit_val_pos m b Hb) as Hvb.
-    unfold coeffs_opt in *. destruct (mc_coeffs c) as [|w cs] eqn:Ec.
+    unfold gteq_c, coeffs_opt in *. destruct (mc_coeffs c) as [|w cs] eqn:Ec.
     + (* clause or cardinality constraint *)
+      injection Eg as <- <- <-.
       assert (EL : lhs m (unit_terms lits) = lhs mu (unit_terms (mc_lits c)))
         by (eapply lhs_unit_tr; eauto).
-      cbn [terms_of] in Hpos |- *.
+      pose proof (lhs_unit_nonneg mu (mc_lits c)) as Hpos.
+      assert (Hnz2 : Forall (fun l => l <> 0) (lits ++ [b])).
+      { apply Forall_app. split; [exact Hnz'|]. constructor; [lia|constructor]. }
+      rewrite gteq_sem by exact Hnz2. cbn [terms_of].
       destruct (1 <? mc_atleast c) eqn:E1.
       * cbn [terms_of]. rewrite combine_app_eq by (rewrite repeat_length; reflexivity).
         rewrite combine_repeat_unit, lhs_app. cbn [combine lhs]. unfold term_val; cbn [fst snd].
@@ -412,17 +408,28 @@ Proof.
         rewrite Hvb, EL. destruct (var_val m b); rewrite ?orb_true_r, ?orb_false_r.
         -- apply Z.leb_le. lia.
         -- f_equal. lia.
-    + (* explicit coefficients *)
-      cbn [terms_of] in Hpos |- *.
-      destruct (wfc_len c W) as [Hl|Hl]; [congruence|]. rewrite Ec in Hl.
+    + (* explicit coefficients: normalised first, the blocking literal weighs the
+         normalised degree *)
       remember (w :: cs) as cs0 eqn:Ecs0.
       assert (EL : lhs m (combine cs0 lits) = lhs mu (combine cs0 (mc_lits c)))
         by (eapply lhs_combine_tr; eauto).
-      rewrite combine_app_eq by congruence.
-      rewrite lhs_app. cbn [combine lhs]. unfold term_val; cbn [fst snd].
-      rewrite Hvb, EL. destruct (var_val m b); rewrite ?orb_true_r, ?orb_false_r.
+      pose proof (combine_snd_nonzero cs0 lits Hnz') as Hcnz.
+      pose proof (gteq_terms_sem m (combine cs0 lits) (mc_atleast c) Hcnz) as Es.
+      pose proof (gteq_terms_out (combine cs0 lits) (mc_atleast c) Hcnz) as Ho.
+      destruct (gteq_terms (combine cs0 lits) (mc_atleast c)) as [ts a'] eqn:Et.
+      cbn [fst snd] in Es, Ho. injection Eg as <- <- <-.
+      assert (Hnz2 : Forall (fun l => l <> 0) (map snd ts ++ [b])).
+      { apply Forall_app. split; [|constructor; [lia|constructor]].
+        apply Forall_map. eapply Forall_impl; [|exact Ho]. cbn beta. tauto. }
+      assert (Hts : 0 <= lhs m ts).
+      { apply lhs_nonneg. apply nonneg_terms_Forall. eapply Forall_impl; [|exact Ho].
+        cbn beta. intros t Ht. lia. }
+      rewrite gteq_sem by exact Hnz2. cbn [terms_of].
+      rewrite combine_app_eq by (rewrite !map_length; reflexivity).
+      rewrite combine_fst_snd, lhs_app. cbn [combine lhs]. unfold term_val; cbn [fst snd].
+      rewrite Hvb. destruct (var_val m b); rewrite ?orb_true_r, ?orb_false_r.
       * apply Z.leb_le. lia.
-      * f_equal. lia.
+      * leb_eq; lia.
 Qed.
 
 Lemma enc_constr_ot : forall vi c vi1 p ot, enc_constr vi c = (vi1, p, ot) ->
@@ -433,7 +440,8 @@ Proof.
   intros vi c vi1 p ot H. unfold enc_constr in H. unfold mc_hard.
   destruct (tr_lits vi (mc_lits c)) as [va lits] eqn:E.
   apply tr_lits_spec in E. destruct E as [[e ->] _].
-  destruct (mc_weight c =? 0); injection H as <- _ <-; [reflexivity|].
+  destruct (mc_weight c =? 0); [injection H as <- _ <-; reflexivity|].
+  destruct (gteq_c lits _ (mc_atleast c)) as [[l1 c1] a1]. injection H as <- _ <-.
   split; [reflexivity|]. rewrite !app_length. simpl. lia.
 Qed.
 
@@ -556,9 +564,10 @@ Proof.
   intros vi c vi1 p ot m0 mu bv H L A. unfold enc_constr in H. unfold mc_hard.
   destruct (tr_lits vi (mc_lits c)) as [va lits] eqn:E.
   destruct (tr_lits_B _ _ _ _ _ _ E L A) as [e1 [L1 A1]].
-  destruct (mc_weight c =? 0); injection H as <- _ _.
-  - exists e1. split; [exact L1|]. split; [exact A1|discriminate].
-  - exists (e1 ++ [bv]). rewrite app_assoc.
+  destruct (mc_weight c =? 0).
+  - injection H as <- _ _. exists e1. split; [exact L1|]. split; [exact A1|discriminate].
+  - destruct (gteq_c lits _ (mc_atleast c)) as [[l1 c1] a1]. injection H as <- _ _.
+    exists (e1 ++ [bv]). rewrite app_assoc.
     split; [rewrite !(app_length _ [_]); simpl; lia|]. split.
     + intros v k Ek. rewrite var_index_app in Ek. destruct (var_index v va 1) as [j|] eqn:Ev.
       * injection Ek as <-. rewrite var_val_app1 by (apply var_index_bound in Ev; lia).
@@ -630,47 +639,49 @@ Qed.
 Lemma tmax_unit : forall ls, tmax (unit_terms ls) = maxvar_clause ls.
 Proof. induction ls as [|l ls IH]; simpl; [reflexivity|]. unfold lit_var. fold (unit_terms ls). rewrite <- IH. reflexivity. Qed.
 
-Lemma tmax_combine : forall (cs : list Z) (ls : list lit), length cs = length ls ->
-  tmax (combine cs ls) = maxvar_clause ls.
+Lemma tmax_combine_le : forall (cs : list Z) (ls : list lit),
+  tmax (combine cs ls) <= maxvar_clause ls.
 Proof.
-  induction cs as [|w cs IH]; intros ls H; destruct ls as [|l ls]; try discriminate; [reflexivity|].
-  simpl. unfold lit_var. f_equal. apply IH. simpl in H. lia.
+  induction cs as [|w cs IH]; intros ls.
+  - simpl. apply maxvar_clause_nonneg.
+  - destruct ls as [|l ls]; [simpl; lia|]. cbn [combine tmax fold_right snd maxvar_clause].
+    fold (tmax (combine cs ls)). unfold lit_var. specialize (IH ls). lia.
 Qed.
 
-Lemma gteq_terms_tmax : forall ts n, Forall (fun t : term => fst t <> 0) ts ->
-  tmax (fst (gteq_terms ts n)) = tmax ts.
+Lemma gteq_terms_tmax_le : forall ts n, tmax (fst (gteq_terms ts n)) <= tmax ts.
 Proof.
-  induction ts as [|[w l] r IH]; intros n H; cbn [gteq_terms]; [reflexivity|].
-  inversion H as [|? ? Hw Hr]; subst. cbn [fst] in Hw.
+  induction ts as [|[w l] r IH]; intros n; cbn [gteq_terms]; [simpl; lia|].
   destruct (w <? 0).
-  - specialize (IH (n + - w) Hr). destruct (gteq_terms r (n + - w)) as [r' n'].
-    cbn [fst] in *. cbn [tmax fold_right snd]. fold (tmax r'). fold (tmax r). rewrite IH. lia.
-  - destruct (w =? 0) eqn:E; [apply Z.eqb_eq in E; contradiction|].
-    specialize (IH n Hr). destruct (gteq_terms r n) as [r' n'].
-    cbn [fst] in *. cbn [tmax fold_right snd]. fold (tmax r'). fold (tmax r). rewrite IH. lia.
+  - specialize (IH (n + - w)). destruct (gteq_terms r (n + - w)) as [r' n'].
+    cbn [fst] in *. cbn [tmax fold_right snd]. fold (tmax r'). fold (tmax r). lia.
+  - destruct (w =? 0).
+    + specialize (IH n). cbn [tmax fold_right snd]. fold (tmax r). lia.
+    + specialize (IH n). destruct (gteq_terms r n) as [r' n'].
+      cbn [fst] in *. cbn [tmax fold_right snd]. fold (tmax r'). fold (tmax r). lia.
 Qed.
 
-Lemma combine_fst_nonzero : forall (cs : list Z) (ls : list lit),
-  Forall (fun w => w <> 0) cs -> Forall (fun t : term => fst t <> 0) (combine cs ls).
+Lemma gteq_maxvar_le : forall (lits : list lit) coeffs n,
+  pbc_maxvar (gteq lits coeffs n) <= maxvar_clause lits.
 Proof.
-  intros cs ls H. revert ls. induction H as [|w cs Hw _ IH]; intros ls.
-  - constructor.
-  - destruct ls as [|l ls]; [constructor|]. cbn [combine]. constructor; [exact Hw|apply IH].
-Qed.
-
-Lemma gteq_maxvar : forall (lits : list lit) coeffs n,
-  match coeffs with
-  | None => True
-  | Some cs => length cs = length lits /\ Forall (fun w => w <> 0) cs
-  end ->
-  pbc_maxvar (gteq lits coeffs n) = maxvar_clause lits.
-Proof.
-  intros lits coeffs n H. unfold gteq. destruct coeffs as [cs|].
-  - destruct H as [Hl Hz].
-    pose proof (gteq_terms_tmax (combine cs lits) n (combine_fst_nonzero cs lits Hz)) as E.
+  intros lits coeffs n. unfold gteq. destruct coeffs as [cs|].
+  - pose proof (gteq_terms_tmax_le (combine cs lits) n) as E.
     destruct (gteq_terms (combine cs lits) n) as [ts n']. cbn [fst] in E.
-    unfold pbc_maxvar; cbn [terms]. fold (tmax ts). rewrite E. apply tmax_combine. exact Hl.
-  - unfold pbc_maxvar; cbn [terms]. apply tmax_unit.
+    unfold pbc_maxvar; cbn [terms]. fold (tmax ts).
+    pose proof (tmax_combine_le cs lits). lia.
+  - unfold pbc_maxvar; cbn [terms]. fold (tmax (unit_terms lits)). rewrite tmax_unit. lia.
+Qed.
+
+Lemma maxvar_map_snd : forall ts : list term, maxvar_clause (map snd ts) = tmax ts.
+Proof. induction ts as [|t ts IH]; simpl; [reflexivity|]. unfold lit_var. rewrite IH. reflexivity. Qed.
+
+Lemma gteq_c_maxvar : forall (lits : list lit) coeffs n l1 c1 a1,
+  gteq_c lits coeffs n = (l1, c1, a1) -> maxvar_clause l1 <= maxvar_clause lits.
+Proof.
+  intros lits coeffs n l1 c1 a1 H. unfold gteq_c in H. destruct coeffs as [cs|].
+  - pose proof (gteq_terms_tmax_le (combine cs lits) n) as E.
+    destruct (gteq_terms (combine cs lits) n) as [ts n']. cbn [fst] in E.
+    injection H as <- _ _. rewrite maxvar_map_snd. pose proof (tmax_combine_le cs lits). lia.
+  - injection H as <- _ _. lia.
 Qed.
 
 Lemma tr_lit_max : forall vi l vi1 l', tr_lit vi l = (vi1, l') ->
@@ -692,48 +703,34 @@ Proof.
     cbn [maxvar_clause]. unfold lit_var. lia.
 Qed.
 
-Lemma Forall_repeat_nz : forall k, Forall (fun w => w <> 0) (repeat 1 k).
-Proof. induction k; simpl; constructor; [lia|assumption]. Qed.
-
-Lemma enc_constr_max : forall vi c vi1 p ot, enc_constr vi c = (vi1, p, ot) -> wfc c ->
-  Z.max (Z.of_nat (length vi)) (pbc_maxvar p) = Z.of_nat (length vi1).
+Lemma enc_constr_max : forall vi c vi1 p ot, enc_constr vi c = (vi1, p, ot) ->
+  pbc_maxvar p <= Z.of_nat (length vi1).
 Proof.
-  intros vi c vi1 p ot H W. unfold enc_constr in H.
+  intros vi c vi1 p ot H. unfold enc_constr in H.
   destruct (tr_lits vi (mc_lits c)) as [va lits] eqn:E.
   pose proof (tr_lits_max _ _ _ _ E) as M.
-  apply tr_lits_spec in E. destruct E as [_ F].
-  assert (Hlen : length lits = length (mc_lits c)).
-  { clear -F. induction F; simpl; congruence. }
-  pose proof (wfc_cnz c W) as Hcz. pose proof (wfc_len c W) as Hcl.
-  destruct (mc_weight c =? 0) eqn:Eh.
-  - injection H as <- <- _. rewrite gteq_maxvar; [exact M|].
-    destruct (mc_coeffs c) as [|w cs]; [exact I|]. destruct Hcl as [Hcl|Hcl]; [discriminate|].
-    split; [congruence|exact Hcz].
-  - injection H as <- <- _.
-    assert (Hh : mc_hard c = false) by exact Eh.
-    rewrite gteq_maxvar.
-    + rewrite maxvar_clause_app. cbn [maxvar_clause]. unfold lit_var.
-      rewrite app_length. cbn [length]. lia.
-    + destruct (mc_coeffs c) as [|w cs] eqn:Ec.
-      * destruct (1 <? mc_atleast c) eqn:E1; [|exact I]. apply Z.ltb_lt in E1.
-        split; [rewrite !app_length, repeat_length; reflexivity|].
-        apply Forall_app. split; [apply Forall_repeat_nz|]. constructor; [lia|constructor].
-      * destruct Hcl as [Hcl|Hcl]; [discriminate|].
-        split; [rewrite !app_length; simpl in *; lia|].
-        apply Forall_app. split; [exact Hcz|]. constructor; [|constructor].
-        apply (wfc_al c W Hh). rewrite Ec. discriminate.
+  destruct (mc_weight c =? 0).
+  - injection H as <- <- _. pose proof (gteq_maxvar_le lits
+      (match mc_coeffs c with [] => None | _ :: _ => Some (mc_coeffs c) end) (mc_atleast c)).
+    destruct (mc_coeffs c); lia.
+  - destruct (gteq_c lits _ (mc_atleast c)) as [[l1 c1] a1] eqn:Eg.
+    apply gteq_c_maxvar in Eg. injection H as <- <- _.
+    match goal with |- pbc_maxvar (gteq ?ls ?cs ?k) <= _ =>
+      pose proof (gteq_maxvar_le ls cs k) as G end.
+    rewrite maxvar_clause_app in G. cbn [maxvar_clause] in G. unfold lit_var in G.
+    rewrite app_length in *. cbn [length] in *. lia.
 Qed.
 
-Lemma enc_all_max : forall cs vi vi' P co, enc_all vi cs = (vi', P, co) -> wf_inst cs = true ->
-  Z.max (Z.of_nat (length vi)) (problem_nbvars P) = Z.of_nat (length vi').
+Lemma enc_all_max : forall cs vi vi' P co, enc_all vi cs = (vi', P, co) ->
+  problem_nbvars P <= Z.of_nat (length vi').
 Proof.
-  induction cs as [|c r IH]; intros vi vi' P co H W; cbn [enc_all] in H.
+  induction cs as [|c r IH]; intros vi vi' P co H; cbn [enc_all] in H.
   - injection H as <- <- _. simpl. lia.
   - destruct (enc_constr vi c) as [[vi1 p] ot] eqn:E1.
     destruct (enc_all vi1 r) as [[vi2 P'] co'] eqn:E2. injection H as <- <- _.
-    apply wf_inst_cons in W. destruct W as [Wc Wr].
-    apply enc_constr_max in E1; [|exact Wc]. apply IH in E2; [|exact Wr].
-    cbn [problem_nbvars fold_right]. fold (problem_nbvars P'). lia.
+    apply enc_constr_max in E1. destruct (enc_all_ext _ _ _ _ _ E2) as [e Ee].
+    apply IH in E2. cbn [problem_nbvars fold_right]. fold (problem_nbvars P').
+    subst vi2. rewrite app_length in *. lia.
 Qed.
 
 (* ------------------------------------------------------------------ *)
@@ -785,7 +782,8 @@ Proof.
   intros vi c vi1 p ot H N. unfold enc_constr in H.
   destruct (tr_lits vi (mc_lits c)) as [va lits] eqn:E.
   destruct (tr_lits_names _ _ _ _ E N) as [N1 I1].
-  destruct (mc_weight c =? 0); injection H as <- _ _; [auto|].
+  destruct (mc_weight c =? 0); [injection H as <- _ _; auto|].
+  destruct (gteq_c lits _ (mc_atleast c)) as [[l1 c1] a1]. injection H as <- _ _.
   rewrite names_app. cbn [names flat_map app]. rewrite app_nil_r. auto.
 Qed.
 
@@ -884,7 +882,7 @@ Theorem encode_correct : forall inst vi P co, encode inst = (vi, P, co) -> wf_in
      sat_hard mu inst = true /\ violated_weight mu inst <= cost_of m co) /\
   (forall mu, exists m, length m = length vi /\ agrees vi m mu /\
      sat_problem m P = sat_hard mu inst /\ cost_of m co = violated_weight mu inst) /\
-  Z.to_nat (problem_nbvars P) = length vi /\
+  Z.to_nat (Z.max (problem_nbvars P) (Z.of_nat (length vi))) = length vi /\
   nonneg_terms co = true /\ cost_wf (length vi) co = true.
 Proof.
   intros inst vi P co E W. unfold encode in E. split; [|split; [|split; [|split]]].
@@ -893,10 +891,7 @@ Proof.
     destruct (enc_all_B _ _ _ _ _ E W mu [] eq_refl) as [ext [L [A H]]].
     { intros v k Hk. discriminate. }
     exists ext. cbn [app] in *. specialize (H []). rewrite app_nil_r in H. tauto.
-  - pose proof (enc_all_max _ _ _ _ _ E W) as M. cbn [length] in M.
-    assert (0 <= problem_nbvars P).
-    { clear. induction P as [|p P IH]; simpl; [lia|]. lia. }
-    lia.
+  - pose proof (enc_all_max _ _ _ _ _ E) as M. lia.
   - pose proof (enc_all_cost _ _ _ _ _ E W) as C. apply nonneg_terms_Forall.
     eapply Forall_impl; [|exact C]. cbn beta. tauto.
   - pose proof (enc_all_cost _ _ _ _ _ E W) as C. unfold cost_wf. apply forallb_forall.
@@ -942,38 +937,24 @@ Qed.
 End Api.
 
 (* ------------------------------------------------------------------ *)
-(* Outside the well-formed instances the faithful mirror fails like the Go code. *)
+(* Inputs on which the Go code failed before the fixes 64bc953 / dda97f9 of /repo
+   (negative coefficient in a soft constraint: Unsat; soft PB constraint with
+   AtLeast = 0 in last position: panic; variable with a null coefficient only: missing
+   from the model).  They are now inside wf_inst and answered correctly. *)
+Lemma maxsat_negative_coeff_ok :
+  wf_inst [hard_clause [1]; weighted_pb [1] [-3] (-1) 1] = true /\
+  maxsat_ref [hard_clause [1]; weighted_pb [1] [-3] (-1) 1] = MSat [(1, true)] 1.
+Proof. split; vm_compute; reflexivity. Qed.
 
-(* a soft constraint with a negative coefficient: the blocking literal gets the
-   coefficient AtLeast *before* GtEq raises the degree, so it no longer relaxes the
-   constraint; here the hard clause (x1) and the soft constraint -3 x1 >= -1 *)
-Theorem maxsat_negative_coeff_refuted :
-  exists inst mu, sat_hard mu inst = true /\ maxsat_ref inst = MUnsat.
-Proof.
-  exists [hard_clause [1]; weighted_pb [1] [-3] (-1) 1], [true].
-  split; vm_compute; reflexivity.
-Qed.
+Lemma maxsat_atleast0_ok :
+  wf_inst [hard_clause [1]; weighted_pb [1] [1] 0 2] = true /\
+  maxsat_ref [hard_clause [1]; weighted_pb [1] [1] 0 2] = MSat [(1, true)] 0.
+Proof. split; vm_compute; reflexivity. Qed.
 
-(* a trivially true soft PB constraint in last position: its blocking literal has
-   coefficient AtLeast = 0, GtEq drops it, the solver never hears of that variable and
-   Minimize indexes s.model out of range *)
-Theorem maxsat_atleast0_panics :
-  exists inst mu, sat_hard mu inst = true /\ maxsat_ref inst = MGoPanic.
-Proof.
-  exists [hard_clause [1]; weighted_pb [1] [1] 0 2], [true].
-  split; vm_compute; reflexivity.
-Qed.
-
-(* a user variable that only occurs with coefficient 0 and is the last one: it is
-   missing from the returned maxsat.Model *)
-Theorem maxsat_zero_coeff_refuted :
-  exists inst res w, maxsat_ref inst = MSat res w /\
-    In 2 (inst_names inst) /\ ~ In 2 (map fst res).
-Proof.
-  exists [hard_pb [1; 2] [1; 0] 1], [(1, true)], 0.
-  split; [vm_compute; reflexivity|]. split; [vm_compute; auto|].
-  cbn. intros [H|[]]. discriminate.
-Qed.
+Lemma maxsat_zero_coeff_ok :
+  wf_inst [hard_pb [1; 2] [1; 0] 1] = true /\
+  maxsat_ref [hard_pb [1; 2] [1; 0] 1] = MSat [(1, true); (2, false)] 0.
+Proof. split; vm_compute; reflexivity. Qed.
 
 (* ------------------------------------------------------------------ *)
 (* 3. The WCNF route.                                                  *)
@@ -1231,7 +1212,7 @@ Definition w_nsoft (w : wcnf) : nat := length (filter (wl_soft (w_top w)) (w_lin
 Definition w_good (w : wcnf) (mu : model) (c : Z) : Prop :=
   length mu = Z.to_nat (w_nbvars w) /\ w_sat_hard mu w = true /\ w_violated mu w <= c.
 
-Lemma wcnf_core : forall w, wf_wcnf w = true -> wcnf_covers w = true ->
+Lemma wcnf_core : forall w, wf_wcnf w = true ->
   forall n P co, wcnf_encode w = (n, P, co) ->
   n = (Z.to_nat (w_nbvars w) + w_nsoft w)%nat /\
   exists r s, optimal_run solve n P (Some co) = RDone r s /\
@@ -1247,17 +1228,12 @@ Lemma wcnf_core : forall w, wf_wcnf w = true -> wcnf_covers w = true ->
         StronglySorted (fun a b => oweight b < oweight a) s /\ last s OUnsat = r
     end.
 Proof.
-  intros w W C n P co E. unfold wf_wcnf in W. apply andb_true_iff in W. destruct W as [W0 W].
-  apply Z.leb_le in W0. unfold wcnf_covers in C. rewrite E in C. cbn [fst] in C.
-  apply Z.leb_le in C. unfold wcnf_encode in E.
+  intros w W n P co E. unfold wf_wcnf in W. apply andb_true_iff in W. destruct W as [W0 W].
+  apply Z.leb_le in W0. unfold wcnf_encode in E.
   destruct (wcnf_loop (w_lines w) (w_top w) (w_nbvars w + 1)) as [[cs ws] rl] eqn:EL.
   injection E as En EP Eco.
   set (nb := w_nbvars w) in *. set (top := w_top w) in *.
   destruct (wl_shape nb top _ _ _ _ _ EL W ltac:(lia)) as [Hrl [Hlen [Hws Hmax]]].
-  assert (Hmv : maxvar cs = nb + Z.of_nat (length ws)).
-  { pose proof (maxvar_clause_nonneg []). assert (0 <= maxvar cs).
-    { clear. induction cs as [|c cs IH]; simpl; [lia|]. pose proof (maxvar_clause_nonneg c). lia. }
-    lia. }
   assert (Hn : n = (Z.to_nat nb + w_nsoft w)%nat).
   { unfold w_nsoft. fold top. rewrite <- Hlen. lia. }
   split; [exact Hn|].
@@ -1313,7 +1289,7 @@ Proof.
   unfold proj. rewrite firstn_length. lia.
 Qed.
 
-Theorem wcnf_chan_correct : forall w, wf_wcnf w = true -> wcnf_covers w = true ->
+Theorem wcnf_chan_correct : forall w, wf_wcnf w = true ->
   match wcnf_optimal_chan solve w with
   | WPanic => False
   | WDone OUnsat s => (forall mu, w_sat_hard mu w = false) /\ s = [OUnsat]
@@ -1326,8 +1302,8 @@ Theorem wcnf_chan_correct : forall w, wf_wcnf w = true -> wcnf_covers w = true -
       last s OUnsat = OSat m c
   end.
 Proof.
-  intros w W C. unfold wcnf_optimal_chan. destruct (wcnf_encode w) as [[n P] co] eqn:E.
-  destruct (wcnf_core w W C n P co E) as [Hn [r [s [Er Hr]]]]. rewrite Er.
+  intros w W. unfold wcnf_optimal_chan. destruct (wcnf_encode w) as [[n P] co] eqn:E.
+  destruct (wcnf_core w W n P co E) as [Hn [r [s [Er Hr]]]]. rewrite Er.
   destruct r as [|m c].
   - destruct Hr as [Hu ->]. cbn. auto.
   - destruct Hr as [L [Hh [Hw [Hmin [Hel [Hso Hla]]]]]].
@@ -1342,46 +1318,64 @@ Proof.
     + reflexivity.
 Qed.
 
-(* Optimal(nil, stop): correct once the caller trims the model itself ... *)
-Theorem wcnf_nil_partial : forall w, wf_wcnf w = true -> wcnf_covers w = true ->
+(* Optimal(nil, stop) returns the same trimmed result (nothing is streamed). *)
+Theorem wcnf_nil_correct : forall w, wf_wcnf w = true ->
   match wcnf_optimal_nil solve w with
   | WPanic => False
   | WDone OUnsat _ => forall mu, w_sat_hard mu w = false
   | WDone (OSat m c) _ =>
-      length m = (Z.to_nat (w_nbvars w) + w_nsoft w)%nat /\
-      let mu := firstn (Z.to_nat (w_nbvars w)) m in
-      w_sat_hard mu w = true /\ c = w_violated mu w /\
+      length m = Z.to_nat (w_nbvars w) /\
+      w_sat_hard m w = true /\ c = w_violated m w /\
       (forall mu', w_sat_hard mu' w = true -> c <= w_violated mu' w)
   end.
 Proof.
-  intros w W C. unfold wcnf_optimal_nil. destruct (wcnf_encode w) as [[n P] co] eqn:E.
-  destruct (wcnf_core w W C n P co E) as [Hn [r [s [Er Hr]]]]. rewrite Er.
-  destruct r as [|m c].
+  intros w W. unfold wcnf_optimal_nil. destruct (wcnf_encode w) as [[n P] co] eqn:E.
+  destruct (wcnf_core w W n P co E) as [Hn [r [s [Er Hr]]]]. rewrite Er.
+  destruct r as [|m c]; cbn [trim_result].
   - apply Hr.
-  - destruct Hr as [L [Hh [Hw [Hmin _]]]]. split; [lia|]. cbv zeta. auto.
+  - destruct Hr as [L [Hh [Hw [Hmin _]]]].
+    unfold wf_wcnf in W. apply andb_true_iff in W. destruct W as [W0 _]. apply Z.leb_le in W0.
+    replace (w_nbvars w <=? Z.of_nat (length m)) with true by (symmetry; apply Z.leb_le; lia).
+    split; [rewrite firstn_length; lia|]. auto.
+Qed.
+
+Theorem wcnf_nil_agrees : forall w, wf_wcnf w = true ->
+  match wcnf_optimal_chan solve w, wcnf_optimal_nil solve w with
+  | WDone r _, WDone r' s' => r' = r /\ s' = []
+  | _, _ => False
+  end.
+Proof.
+  intros w W. unfold wcnf_optimal_chan, wcnf_optimal_nil.
+  destruct (wcnf_encode w) as [[n P] co] eqn:E.
+  destruct (wcnf_core w W n P co E) as [Hn [r [s [Er Hr]]]]. rewrite Er.
+  unfold wf_wcnf in W. apply andb_true_iff in W. destruct W as [W0 _]. apply Z.leb_le in W0.
+  destruct r as [|m c].
+  - destruct Hr as [_ ->]. cbn. auto.
+  - destruct Hr as [L [_ [_ [_ [Hel [_ Hla]]]]]].
+    rewrite trim_all_map.
+    2:{ eapply Forall_impl; [|exact Hel]. intros x [mj [cj [-> [Lj _]]]]. lia. }
+    rewrite last_map_trimf, Hla. cbn [trimf trim_result].
+    replace (w_nbvars w <=? Z.of_nat (length m)) with true by (symmetry; apply Z.leb_le; lia).
+    auto.
 Qed.
 
 End Wcnf.
 
-(* ... but the relaxation variables do leak into the model it returns. *)
-Theorem wcnf_nil_leak_refuted :
-  exists w m c, wf_wcnf w = true /\ wcnf_covers w = true /\
-    wcnf_optimal_nil_ref w = WDone (OSat m c) [] /\ Z.of_nat (length m) <> w_nbvars w.
-Proof.
-  exists (WCNF 3 10 [[10; 1; 2; 0]; [3; -1; 0]; [2; -2; 0]; [1; 3; 0]]),
-         [false; true; true; false; true; false], 2.
-  split; [reflexivity|]. split; [reflexivity|]. split; [vm_compute; reflexivity|].
-  cbn. discriminate.
-Qed.
+(* Inputs on which the Go code failed before the fixes 922d9d8 / 2a47b9c of /repo
+   (relaxation variables in the model returned by Optimal(nil, stop); panic when the
+   last declared variable is unused and every clause is hard). *)
+Lemma wcnf_nil_no_leak_ok :
+  wf_wcnf (WCNF 3 10 [[10; 1; 2; 0]; [3; -1; 0]; [2; -2; 0]; [1; 3; 0]]) = true /\
+  wcnf_optimal_nil_ref (WCNF 3 10 [[10; 1; 2; 0]; [3; -1; 0]; [2; -2; 0]; [1; 3; 0]]) =
+  WDone (OSat [false; true; true] 2) [].
+Proof. split; vm_compute; reflexivity. Qed.
 
-(* Only hard clauses and the last declared variable is not used: the solver's model
-   is shorter than firstRelax and res.Model[:s.firstRelax] panics. *)
-Theorem wcnf_unused_var_panics :
-  exists w mu, wf_wcnf w = true /\ w_sat_hard mu w = true /\ wcnf_optimal_chan_ref w = WPanic.
-Proof.
-  exists (WCNF 3 10 [[10; 1; 2; 0]]), [true; false; false].
-  split; [reflexivity|]. split; vm_compute; reflexivity.
-Qed.
+Lemma wcnf_unused_var_ok :
+  wf_wcnf (WCNF 3 10 [[10; 1; 2; 0]]) = true /\
+  wcnf_optimal_chan_ref (WCNF 3 10 [[10; 1; 2; 0]]) =
+  WDone (OSat [false; true; false] 0) [OSat [false; true; false] 0] /\
+  wcnf_optimal_nil_ref (WCNF 3 10 [[10; 1; 2; 0]]) = WDone (OSat [false; true; false] 0) [].
+Proof. split; [|split]; vm_compute; reflexivity. Qed.
 
 (* ------------------------------------------------------------------ *)
 (* Corollaries in the shape used by Properties/C04.v.                  *)
